@@ -994,6 +994,11 @@ def unit_pad(ctx):
     pw = {dims[ax]: w for ax, w in enumerate(widths) if w != (0, 0) or omit == "explicit"}
     if omit == "explicit" and all(w != (0, 0) for w in widths):
         raise Skip()  # same request as 'omitted'
+    _do_pad(ctx, geo, mesh, field, widths, pw, mode, dims)
+
+
+def _do_pad(ctx, geo, mesh, field, widths, pw, mode, dims):
+    nd = len(widths)
     bf = C.field_snap(field)
     ctx.step(1, f"Field.pad {pw} {mode}")
     res = field.pad(pw, mode=mode)
@@ -1064,6 +1069,11 @@ def unit_resample(ctx):
             if t not in dom:
                 dom.append(t)
         target.append(ctx.choose(f"n{ax}", dom))
+    _do_resample(ctx, geo, field, target, dims, nv)
+
+
+def _do_resample(ctx, geo, field, target, dims, nv):
+    nd = len(target)
     bf = C.field_snap(field)
     ctx.step(1, f"Field.resample {tuple(target)}")
     res = field.resample(tuple(target))
@@ -1114,6 +1124,64 @@ def unit_resample(ctx):
                  f"cell(s) containing its centre have {bad_m[2]}")
 
 
+def unit_reuse(ctx):
+    """Non-initial states: a field whose mesh has already been described / resampled once is moved or resized IN PLACE
+    (field.mesh.translate / scale), then selected from, extracted from, padded and resampled.  Every result must agree
+    with the source at the positions the source has NOW."""
+    nd = ctx.choose("ndim", [1, 2, 3])
+    idx = {1: (7,), 2: (1, 2), 3: (0, 1, 2)}[nd]
+    axes = _axes_nd(idx)
+    mesh = _mesh(axes)
+    field = _field(ctx, mesh, nvdim=2)
+    first = ctx.choose("first-use", ["resample", "cells+to_xarray", "nothing"])
+    step = ctx.choose("then-in-place", [("translate", 1.0), ("translate", -37.5), ("scale", 0.5), ("scale", 3.0)])
+    op = ctx.choose("op", ["resample", "range", "plane", "region", "pad"] if nd > 1 else ["resample", "range", "region", "pad"])
+    n0 = tuple(int(k) for k in mesh.n)
+    if first == "resample":
+        ctx.step(1)
+        field.resample(tuple(max(1, k - 1) for k in n0))
+    elif first == "cells+to_xarray":
+        field.mesh.cells, field.mesh.vertices, field.to_xarray()
+    ctx.step(1, f"in place: {step}")
+    edges = np.asarray(field.mesh.region.edges, dtype=float)
+    if step[0] == "translate":
+        field.mesh.translate(list(step[1] * edges), inplace=True)
+    else:
+        field.mesh.scale(step[1], inplace=True)
+    mesh = field.mesh
+    geo = Geo(mesh)
+    dims = tuple(mesh.region.dims)
+    if op == "resample":
+        target = ctx.choose("target", [tuple(2 * k for k in n0), tuple(max(1, k - 1) for k in n0), n0])
+        _do_resample(ctx, geo, field, list(target), dims, 2)
+    elif op == "range":
+        ax = ctx.choose("axis", list(range(nd)))
+        n = geo.n[ax]
+        a = ctx.choose("lo", list(range(n)))
+        b = ctx.choose("hi", list(range(a, n)))
+        _do_range(ctx, geo, mesh, field, ax, geo.centre(ax, a), geo.centre(ax, b), f"c{a}..c{b}", with_mesh=True)
+    elif op == "plane":
+        ax = ctx.choose("axis", list(range(nd)))
+        probes = _plane_probes(geo, ax)
+        p = _pick(ctx, "probe", probes, 0, len(probes))
+        _do_plane(ctx, geo, mesh, field, ax, probes[p])
+    elif op == "region":
+        ax = ctx.choose("axis", list(range(nd)))
+        n = geo.n[ax]
+        i = ctx.choose("i", list(range(n)))
+        j = ctx.choose("j", list(range(i + 1, n + 1)))
+        corners = []
+        for k in range(nd):
+            lo, hi = (i, j) if k == ax else (0, geo.n[k])
+            corners.append((float(mesh.vertices[k][lo]), float(mesh.vertices[k][hi])))
+        _do_box(ctx, geo, mesh, field, corners, f"aligned[{i},{j})@{ax}")
+    else:
+        ax = ctx.choose("axis", list(range(nd)))
+        mode = ctx.choose("mode", ["constant", "wrap", "reflect"])
+        widths = [(1, 2) if k == ax else (0, 0) for k in range(nd)]
+        _do_pad(ctx, geo, mesh, field, widths, {dims[ax]: (1, 2)}, mode, dims)
+
+
 def units(tier):
     return [
         {"name": "box1", "fn": unit_box1, "bound": None},
@@ -1123,6 +1191,7 @@ def units(tier):
         {"name": "plane", "fn": unit_plane, "bound": None},
         {"name": "plane1d", "fn": unit_plane1d, "bound": None},
         {"name": "int_region", "fn": unit_int_region, "bound": None},
+        {"name": "reuse", "fn": unit_reuse, "bound": None},
         {"name": "name", "fn": unit_name, "bound": None},
         {"name": "pad", "fn": unit_pad, "bound": None},
         {"name": "resample", "fn": unit_resample, "bound": None},
